@@ -279,6 +279,38 @@ def run(chk):
             if not (lbx - tol <= ax <= ltx + tol and lby - tol <= ay <= lty + tol):
                 chk.violation('c17:limit:axis%s:%s' % (f[14], ' '.join(f[6:16])), 'ShiftCollider::resolve computed shift (%s, %s): accumulated offset (%g, %g) leaves the limit rectangle [(%g,%g),(%g,%g)] '
                               '(offset (%g,%g), current shift (%g,%g), axis %s)' % (sh[0], sh[1], ax, ay, lbx, lby, ltx, lty, ox, oy, sx, sy, f[14]), dict(case=c, got=l[:600]))
+    # --- the limit clause on the real KernCollider (the kerning path of the fixer), driven as Pass::resolveKern drives it: the offset carried
+    # over from earlier collision passes anywhere in the limit rectangle, neighbours displaced so that small and very large kerns are needed
+    kcases = []
+    ktexts = {'Awami_test.ttf': [0x628, 0x6cc, 0x646, 0x20, 0x6af, 0x631, 0x62f, 0x20, 0x633, 0x644], 'AwamiNastaliq-Regular.ttf': [0x628, 0x6cc, 0x646, 0x20, 0x6af, 0x631, 0x62f, 0x20, 0x633, 0x644]}
+    for k in range(4000 if chk.tier == 'thorough' else 600):
+        font = rng.choice(sorted(ktexts))
+        lbx = rng.choice((-2000, -1200, -500, -100, 0, 100)); ltx = lbx + rng.choice((0, 100, 600, 1700, 6200))
+        lby = rng.choice((-500, 0)); lty = lby + rng.choice((0, 500))
+        ox = 0 if rng.random() < 0.2 else rng.randrange(lbx, ltx + 1)
+        kcases.append('n%d kern %s %s %d %d %d %d %d %d %d %d %d %s' % (k, font, ''.join('%08x' % c for c in ktexts[font]), rng.randrange(8), rng.choice((1, 1, 3, 0)),
+                                                                    lbx, lby, ltx, lty, ox, 0, rng.choice((-3000, -1500, -600, -200, 0, 200, 600, 1500, 3000)), rng.choice(('0', '10', '50'))))
+    _, kl, _ = vlib.run_pair(None, w, kcases, timeout=2400)
+    nkern = 0
+    for c, l in zip(kcases, kl):
+        if l is None:
+            chk.tie_break('harness', 'no result line', c[:300]); continue
+        t = l.split()
+        if 'ABORT' in t[1:3]:
+            chk.violation('c17:kern-abort:%s' % ' '.join(c.split()[4:14]), 'KernCollider aborted: %s' % l[:300], dict(case=c, got=l[:600])); continue
+        kv = [x for x in t if x.startswith('kern=')]
+        if not kv:
+            continue
+        f = c.split()
+        lbx, lby, ltx, lty, ox, oy = (float(v) for v in f[6:12])
+        kx = float(kv[0][5:].split(',')[0])
+        nkern += 1
+        classes.add(('kern', f[5], ox == 0, kx + ox <= lbx, kx + ox >= ltx))
+        tol = 1e-3 * (1 + max(abs(v) for v in (lbx, ltx)))
+        if lbx <= ltx and not (lbx - tol <= ox + kx <= ltx + tol):
+            chk.violation('c17:kern-limit:%s' % ' '.join(f[4:14]), 'KernCollider::resolve computed kern %g: with the offset %g carried over from earlier passes the accumulated offset %g leaves the limit rectangle\'s x range [%g, %g]'
+                          % (kx, ox, ox + kx, lbx, ltx), dict(case=c, got=l[:600]))
+    chk.notes.append('kerning path: %d of %d KernCollider set-ups collided and were resolved' % (nkern, len(kcases)))
     # --- the resolved-verdict clause on the real ShiftCollider: two glyphs of a live Awami segment at arbitrary relative origins
     rcases = []
     for k in range(20000 if chk.tier == 'thorough' else 2500):
@@ -397,6 +429,18 @@ def replay(chk, obj):
         tol = 1e-3 * (1 + max(abs(v) for v in (lbx, lby, ltx, lty)))
         bad = not (lbx - tol <= ax <= ltx + tol and lby - tol <= ay <= lty + tol)
         print(' accumulated offset (%g, %g): %s' % (ax, ay, 'OUTSIDE the limit' if bad else 'inside'))
+        return 1 if bad else 0
+    if case.split()[1] == 'kern':
+        w = engine.build(chk)
+        _, il, _ = vlib.run_pair(None, w, [case], shards=1)
+        print(case[:300]); print(' impl :', (il[0] or '')[:800])
+        f = case.split(); kv = [x for x in (il[0] or '').split() if x.startswith('kern=')]
+        if not kv:
+            return 1 if 'ABORT' in (il[0] or '') else 0
+        lbx, ltx, ox = float(f[6]), float(f[8]), float(f[10]); kx = float(kv[0][5:].split(',')[0])
+        tol = 1e-3 * (1 + max(abs(lbx), abs(ltx)))
+        bad = lbx <= ltx and not (lbx - tol <= ox + kx <= ltx + tol)
+        print(' accumulated offset %g: %s' % (ox + kx, 'OUTSIDE the limit' if bad else 'inside'))
         return 1 if bad else 0
     if case.split()[1] != 'zones':
         w = engine.build(chk)
